@@ -265,8 +265,6 @@ func (g *gemExtension) compare(e extension) int {
 		}
 		return c
 	}
-	if len(bs) > len(as) {
-		return -1
-	}
+	// Every element, padding included, compared equal.
 	return 0
 }
